@@ -39,6 +39,8 @@ package keystore
 //@   trusted
 //@   requires b != nil
 //@   ensures result1 == nil ==> result0 <= MaxAddressesPerAccount
+// childNumOf(b, internal): the next child number stored in the account bucket b as seen by the running transaction
+//@   ensures result1 == nil ==> mathint(result0) == ghost("childNumOf", b, internal)
 //@ func newManagedAddressFromExtKey
 //@   trusted
 //@   requires extKey != nil && net != nil
@@ -49,7 +51,7 @@ package keystore
 //@ define usedAt(a, i) = (has(a.index, i) && has(a.addrs, a.index[i]) && a.addrs[a.index[i]] != nil && ghostb("scriptUsed", strOf(a.addrs[a.index[i]].scriptHash)))
 //@ define gapWitness(a, lo, hi) = (exists qi_ uint32 :: mathint(lo) <= mathint(qi_) && qi_ < hi && usedAt(a, qi_))
 //@ func (*AddrManager).nextAddresses
-//@   props C12
+//@   props C12 C18
 //@   nopanic off
 //@   requires a != nil && dbTransaction != nil && a.acctInfo != nil && net != nil
 //@   requires a.acctInfo.acctKeyPriv != nil ==> a.acctInfo.acctKeyPriv.VerifWF()
@@ -60,6 +62,9 @@ package keystore
 //@   loop#3 invariant branchKey.VerifWF()
 //@   loop#1 invariant branchKey.VerifWF() && startIndex <= i && mathint(startIndex) == mathint(nextIndex) + mathint(numAddresses) - mathint(addressGapLimit) - 1
 //@   loop#1 invariant pass ==> gapWitness(a, mathint(nextIndex) + mathint(numAddresses) - mathint(addressGapLimit) - 1, nextIndex)
+// C18/C12: the first index to issue is the one stored in the database AS SEEN BY THE RUNNING TRANSACTION (not a value
+// cached in memory, which is refreshed from transactions that may later fail to commit)
+//@   at "if numAddresses > MaxAddressesPerAccount || numAddresses+nextIndex > MaxAddressesPerAccount {..." assert[C18] mathint(nextIndex) == ghost("childNumOf", am, internal)
 //@   at "addressInfo := make([]*unlockDeriveInfo, 0, numAddresses)" assert[C12] nextIndex != 0 && mathint(nextIndex) + mathint(numAddresses) > mathint(addressGapLimit) ==> gapWitness(a, mathint(nextIndex) + mathint(numAddresses) - mathint(addressGapLimit) - 1, nextIndex)
 
 // lookup across every managed keystore (not only the current one)
@@ -137,3 +142,13 @@ package keystore
 //@ func (*KeystoreManager).ClearPrivKey
 //@   trusted
 //@   requires km != nil
+
+// ---- C12 (issued addresses stay listed after a restart, at their index): the public-key bucket is keyed by
+// branch(4, little endian) | index(4, little endian); the writer side is under contract (the reader, fetchEncryptedPubKey, is
+// not: its loop appends to one fresh slice while reading another, and the aliasing facts needed did not discharge).
+//@ func putEncryptedPubKey
+//@   props C12 C18 C19
+//@   requires b != nil
+//@   modifies bmap(b)
+//@   ensures result != nil ==> bsame(b)
+//@   at "return b.Put(key, pubKey)" assert[C12] len(key) == 8 && le32(key, 0) == branch && le32(key, 4) == index
